@@ -253,7 +253,7 @@ func runC19(c *Ctx) {
 		c.Case(gen, in, obs, changed, "op:url")
 	}
 	urlCase("url-default", driver.VerifDefaultConfig(), url.Values{})
-	for k := 0; k < c.Budget(220, 5000); k++ {
+	for k := 0; k < c.Budget(180, 5000); k++ {
 		cfg := c19GenConfig(c.R, fields)
 		q0 := url.Values{}
 		if c.R.P(1, 2) {
@@ -276,7 +276,7 @@ func runC19(c *Ctx) {
 		}
 	}
 	// --- applyURL on an arbitrary base config and an arbitrary query (error paths, order)
-	for k := 0; k < c.Budget(220, 5000); k++ {
+	for k := 0; k < c.Budget(180, 5000); k++ {
 		cfg := c19GenConfig(c.R, fields)
 		q := c19GenQuery(c.R, fields, 1+c.R.Intn(9))
 		strs := map[string]bool{}
